@@ -137,7 +137,7 @@ def run_case(case):
 
     def mkref(rows, resid_offset=0):
         # all conformations of the reference share one topology object, as the molecules of a System do
-        return make_molecule('REF', ratoms, edges, sym(rows), resid_offset=resid_offset, top=top_ref)
+        return make_molecule('REF', ratoms, edges, sym(rows), resid_offset=resid_offset, top=top_ref, resid_stride=3 if resid_offset else 1)
 
     if case['mode'] == 'step':
         def run(ctx):
@@ -295,7 +295,7 @@ def replay(w):
     T = np.array([[v['t%d_%d' % (j, k)] for k in range(3)] for j in range(nt)])
     U = np.array([[v['u%d_%d' % (j, k)] for k in range(3)] for j in range(nt)])
     s = v['s']
-    mkref = lambda X, off=0: make_molecule('REF', ratoms, edges, X, resid_offset=off, top=top)
+    mkref = lambda X, off=0: make_molecule('REF', ratoms, edges, X, resid_offset=off, top=top, resid_stride=3 if off else 1)
     mktgt = lambda: make_molecule('TGT', tatoms, [(0, 1)], T)
     bad = []
     hist = (w.get('history') or []) + ['call_A']
